@@ -243,6 +243,7 @@ pub proof fn lemma_acc_log(al: u8)
 
 impl FSETable {
     pub fn read_probabilities(&mut self, source: &[u8], max_log: u8) -> (r: Result<usize, FSETableError>)
+        // contract of FSETable::read_probabilities: PROVED in unit F3 (on the verbatim body), ASSUMED in unit F2
         requires source@.len() <= 0x1_0000_0000, max_log <= 30,
         ensures
             final(self).max_symbol == old(self).max_symbol, final(self).decode == old(self).decode,
